@@ -833,9 +833,15 @@ func (h *backendHandler) renderResponse(st *rpcState, obs *BackendObs, override 
 			}
 			rr.headers.Set("Content-Type", "application/json")
 			var merr error
-			rr.body, merr = refMarshal("json", statusProto(jsonExpressible(errSpec)))
+			es := jsonExpressible(errSpec)
+			rr.body, merr = refMarshal("json", statusProto(es))
 			if merr != nil {
-				panic(fmt.Sprintf("REST backend cannot render its error: %v", merr))
+				// (a message that is not valid UTF-8 cannot be a JSON string: a REST backend says what it can)
+				es.Msg = strings.ToValidUTF8(es.Msg, "\uFFFD")
+				rr.body, merr = refMarshal("json", statusProto(es))
+			}
+			if merr != nil {
+				rr.body = []byte(`{"code":13,"message":"unrenderable error"}`)
 			}
 			break
 		}
